@@ -188,8 +188,20 @@ def formatter_chain(tf):
     return mapguard, "[\n  " + ",\n  ".join(out) + "]"
 
 
-def nguard(n):
+def nguard(n, units=(), tables=None):
+    """`units`: names bound to `numpy.datetime_data(value.dtype)[0]` by an earlier assignment; `tables`: the
+    module-level dict / tuple literals (a membership test in one whose keys are Y and M is the calendar test)."""
     t = ast.unparse(n)
+    if isinstance(n, ast.Compare) and len(n.ops) == 1 and isinstance(n.ops[0], ast.In) \
+            and (ast.unparse(n.left) == "numpy.datetime_data(value.dtype)[0]" or ast.unparse(n.left) in units):
+        c = n.comparators[0]
+        keys = None
+        if isinstance(c, (ast.Tuple, ast.List, ast.Set)):
+            keys = ast.literal_eval(c)
+        elif isinstance(c, ast.Name) and tables is not None and c.id in tables:
+            keys = tables[c.id]
+        if keys is not None and sorted(keys) == ["M", "Y"]:
+            return ".calUnit"
     if isinstance(n, ast.Call) and not n.keywords:
         f = ast.unparse(n.func)
         if f == "isinstance" and len(n.args) == 2 and ast.unparse(n.args[0]) == "value":
@@ -202,10 +214,6 @@ def nguard(n):
             return ".isNaT"
         if f == "numpy.issubdtype" and len(n.args) == 2 and ast.unparse(n.args[0]) == "value.dtype" and ast.unparse(n.args[1]) in NPCLS:
             return "(.subdtype .%s)" % NPCLS[ast.unparse(n.args[1])]
-    if isinstance(n, ast.Compare) and len(n.ops) == 1 and isinstance(n.ops[0], ast.In) \
-            and ast.unparse(n.left) == "numpy.datetime_data(value.dtype)[0]" and isinstance(n.comparators[0], (ast.Tuple, ast.List, ast.Set)) \
-            and sorted(ast.literal_eval(n.comparators[0])) == ["M", "Y"]:
-        return ".calUnit"
     raise Unknown("mapper test " + t[:60])
 
 
@@ -224,17 +232,33 @@ def nres(e):
     raise Unknown("mapper result " + t[:60])
 
 
-def nbody(stmts):
+def _targets(st):
+    out = []
+    for t in st.targets:
+        out += list(t.elts) if isinstance(t, ast.Tuple) else [t]
+    return out
+
+
+def nbody(stmts, units=(), tables=None):
+    units = tuple(units)
     for i, st in enumerate(stmts):
         if isinstance(st, ast.If):
             if st.orelse or not isinstance(st.body[-1], ast.Return):
                 raise Unknown("mapper branch shape")
-            return "(.ite %s %s %s)" % (nguard(st.test), nbody(list(st.body)), nbody(stmts[i + 1:]))
+            return "(.ite %s %s %s)" % (nguard(st.test, units, tables), nbody(list(st.body), units, tables), nbody(stmts[i + 1:], units, tables))
         if isinstance(st, ast.Return):
             return "(.ret %s)" % nres(st.value)
         if isinstance(st, (ast.ImportFrom, ast.Import)):
             continue
-        if isinstance(st, ast.Assign) and all(isinstance(t, ast.Name) and t.id != "value" for t in st.targets):
+        if isinstance(st, ast.Assign) and all(isinstance(t, ast.Name) and t.id != "value" for t in _targets(st)):
+            # `unit, step = numpy.datetime_data(value.dtype)[:2]` / `unit = numpy.datetime_data(value.dtype)[0]` name the unit
+            v, tg = ast.unparse(st.value), st.targets[0]
+            bound = {t.id for t in _targets(st)}
+            units = tuple(u for u in units if u not in bound)
+            if len(st.targets) == 1 and isinstance(tg, ast.Tuple) and tg.elts and v in ("numpy.datetime_data(value.dtype)", "numpy.datetime_data(value.dtype)[:2]"):
+                units += (tg.elts[0].id,)
+            elif len(st.targets) == 1 and isinstance(tg, ast.Name) and v == "numpy.datetime_data(value.dtype)[0]":
+                units += (tg.id,)
             continue
         raise Unknown("mapper statement " + type(st).__name__)
     raise Unknown("mapper falls off the end")
@@ -264,7 +288,19 @@ def generate(o):
 
     ch = o.item("displayfmt.type_formatter_chain", lambda: list(formatter_chain(find_function(fn(), "type_formatter"))),
                 [PINNED_MAPGUARD, PINNED_BRANCHES])
-    mp = o.item("displayfmt.numpy_type_mapper", lambda: nbody(list(find_function(fn(), "numpy_type_mapper").body)), PINNED_MAPPER)
+    def tables():
+        out = {}
+        for node in src.tree.body:
+            if isinstance(node, ast.Assign) and len(node.targets) == 1 and isinstance(node.targets[0], ast.Name):
+                try:
+                    val = ast.literal_eval(node.value)
+                except Exception:  # noqa
+                    continue
+                if isinstance(val, (dict, tuple, list, set, frozenset)):
+                    out[node.targets[0].id] = list(val)
+        return out
+
+    mp = o.item("displayfmt.numpy_type_mapper", lambda: nbody(list(find_function(fn(), "numpy_type_mapper").body), (), tables()), PINNED_MAPPER)
     text = HEADER + "import OrsoVerif.Model.PyKinds\n"
     text += "/-! The `if` chains of `type_formatter` and `numpy_type_mapper` (orso/display.py), in source order\n"
     text += "(harness/extractors/displayfmt.py). -/\nnamespace Gen.DisplayFmt\nopen PyKinds\n"
